@@ -30,6 +30,7 @@ def dataclass_fields(
 
 class JSONBase(AsJSONMixin):
     def __init_subclass__(cls: type, **kwargs):
+        super().__init_subclass__(**kwargs)
         __from_json__class__[cls.__name__] = cls
 
     @classmethod
